@@ -90,6 +90,19 @@ def catalogue(rng):
     add("repeat_forest", kind="repeat_after_history", which="forest", kw={"num_trees": 2, "num_restarts": 2, "subtree_maxiter": 2, "subtree_size": 4}, **tb)
     add("repeat_anneal", kind="repeat_after_history", which="anneal", also_anneal=True, kw={"tsteps": 2, "numiter": 2, "tstart": 20.0}, **tb)
     add("repeat_slice", kind="repeat_after_history", which="slice", kw={"target_size": max(1, size // 8), "temperature": 1.0, "max_repeats": 2}, **tb)
+    # a UNIFORM network (every dimension 2, lattice): many indices are equivalent candidates for slicing,
+    # so the tie-breaking noise of every slicing step decides - an unseeded draw shows immediately
+    lat = gen.lattice_net(rng, rng.choice([3, 4]), rng.choice([3, 4]), cap=10**12)
+    lat = gen.Net(lat.inputs, lat.output, {k_: 2 for k_ in lat.size_dict}, "lattice")
+    lssa = gen.random_ssa(rng, lat.N, "uniform")
+    lsize = ct.make_tree(lat, lssa).max_size()
+    lb = {"inputs": [list(t) for t in lat.inputs], "output": list(lat.output), "size_dict": lat.size_dict, "ssa": lssa}
+    for mode in ("basic", "reslice", "drift", 2):
+        add(f"uniform_anneal_sliced_{mode}", kind="anneal", kw={"tsteps": 3, "numiter": 2, "tstart": 20.0, "tfinal": 5.0, "target_size": max(1, lsize // 8), "slice_mode": mode}, **lb)
+    for mode in ("basic", "reslice", "drift"):
+        add(f"uniform_temper_sliced_{mode}", kind="temper", kw={"tsteps": 2, "num_trees": 2, "numiter": 2, "tstart": 20.0, "target_size": max(1, lsize // 8), "slice_mode": mode}, **lb)
+    add("uniform_slice", kind="slice", kw={"target_size": max(1, lsize // 8), "temperature": 0.01, "max_repeats": 2}, **lb)
+    add("uniform_slice_reslice", kind="slice", pre_sliced=[lat.inputs[0][0]], kw={"target_size": max(1, lsize // 8), "temperature": 0.01, "max_repeats": 2, "reslice": True}, **lb)
     if len(inner) >= 3:
         add("unslice_rand", kind="unslice_rand", pre_sliced=rng.sample(inner, 3), **tb)
     add("rand_equation", kind="gen", fn="rand_equation", args=[8, 3], kw={"n_out": 2, "n_hyper_in": 2, "n_hyper_out": 1})
